@@ -82,6 +82,11 @@ def run(ctx):
     # ... and that the DECODE step of the statistics chain gives values of the annotated meaning (converted_types.convert on min / max:
     # an unsigned bound decoded as signed flips the comparison)
     try:
+        from ._statdecode import p_statdecode
+        p_statdecode(ctx)
+    except Exception as ex:          # out of reach for this run: undecided, never a violation
+        ctx.obligation("p_statdecode.out_of_reach", "encoding.read_plain", "unknown", "engine", 0.0, detail=f"{type(ex).__name__}: {ex}", sample=True)
+    try:
         from ._units import p_units
         p_units(ctx)
     except Exception as ex:          # out of reach for this run: undecided, never a violation
